@@ -294,6 +294,6 @@ def genImplBlock (opts : Opts) (traitRef : Toks) (ind : ImplIndirection) (tg : T
         traitRef := traitRef ++ genericArgs ind tg.params
         selfTy := implSelfTy depMode ind opts.mockable
         preds := implWherePreds depMode ind fns tg
-        members := fns.map fun tf => .fn [] tf.sig (some (delegatingBody mode ind tf)) }
+        members := fns.map fun tf => .fn tf.attrs tf.sig (some (delegatingBody mode ind tf)) }
 
 end Entrait
